@@ -104,7 +104,25 @@ func IsNamed(t types.Type, pkgPath, name string) bool {
 	if n == nil || n.Obj().Pkg() == nil {
 		return false
 	}
-	return n.Obj().Name() == name && n.Obj().Pkg().Path() == pkgPath
+	if n.Obj().Pkg().Path() != pkgPath {
+		return false
+	}
+	return n.Obj().Name() == name || TypeAlias[pkgPath+"."+n.Obj().Name()] == name
+}
+
+// TypeAlias maps "package path.current name" of a renamed unexported type to the name the rules know
+// it by (filled by the rules' role resolver; empty on a tree where nothing was renamed).
+var TypeAlias = map[string]string{}
+
+// TypeCanon returns the name the rules know a named type by.
+func TypeCanon(n *types.Named) string {
+	if n == nil || n.Obj().Pkg() == nil {
+		return ""
+	}
+	if a, ok := TypeAlias[n.Obj().Pkg().Path()+"."+n.Obj().Name()]; ok {
+		return a
+	}
+	return n.Obj().Name()
 }
 
 // IsModNamed is IsNamed with a module-relative package path.
